@@ -748,6 +748,28 @@ def _vaarg_local(fn):
     return ds[0]
 
 
+def check_event_batch(ctx, P):
+    pi = P.fn("fiber_poll_events_internal")
+    o = ctx.ob("event.batch", pi, "epoll_wait is asked for at most as many events as the array it is given holds", "the kernel writes maxevents entries: a larger "
+               "count than the array overruns the poller's stack")
+    import re
+    bad = None
+    n = 0
+    for c in pi.calls("epoll_wait"):
+        a = pi.args(c)
+        arr = pi.resolve(a[1])
+        m = re.search(r"\[(\d+)\]\s*$", (arr.t or "") if arr is not None else "")
+        mx = a[2].cv
+        n += 1
+        if m is None or mx is None:
+            bad = bad or ("cannot size `%s` / `%s`" % (a[1].text, a[2].text), c)
+        elif mx > int(m.group(1)) or mx < 1:
+            bad = bad or ("epoll_wait may return %d events into an array of %s" % (mx, m.group(1)), c)
+    if n == 0:
+        raise AnalysisBroken("fiber_poll_events_internal: no epoll_wait call")
+    o.check(bad is None, "%d epoll_wait call(s)" % n, bad[0] if bad else None, site=bad[1] if bad else None, construct="epoll batch larger than its array")
+
+
 def check_table_size(ctx, P, MV):
     o = ctx.ob("setup.size", "", "the per-descriptor tables and max_fd are sized by the hard RLIMIT_NOFILE limit (rlim_max), the largest value the soft "
                "limit can be raised to while the process runs",
@@ -789,3 +811,4 @@ def run(ctx):
     check_close_event(ctx, P, MV)
     check_setup(ctx, P, MV)
     check_table_size(ctx, P, MV)
+    check_event_batch(ctx, P)
